@@ -310,14 +310,24 @@ class Loops:
                 prep[hid] = ListObj(items=())
             elif isinstance(o, SetObj):
                 prep[hid] = SetObj(items=())
+            elif isinstance(o, DictObj) and o.default_factory in ("list", "set") and o.sym is None:
+                prep[hid] = DictObj((), o.default_factory)
             else:
                 raise Unsupported(f"loop body mutates {type(o).__name__} (needs a LoopSpec) in {key}")
+        # containers reachable only through an accumulating defaultdict are handled through the dict
+        dict_ids = [hid for hid in mutated if isinstance(st.heap[hid], DictObj)]
+        for hid in dict_ids:
+            for _k, v in st.heap[hid].items:
+                if isinstance(v, Ref) and v.id in mutated:
+                    mutated.discard(v.id)
+                    prep.pop(v.id, None)
         if mutated:
+            saved_wo = set(self.write_only)
             self.write_only |= mutated
             try:
                 n, res = run(prep)
             finally:
-                self.write_only -= mutated
+                self.write_only = saved_wo
         else:
             res = res1
         # range fact for k must be in every delta: add explicitly
@@ -358,6 +368,8 @@ class Loops:
                         contribs[hid].append((idx, ("items", list(obj.items))))
                     else:
                         contribs[hid].append((idx, ("symset", obj.sv)))
+                elif isinstance(obj, DictObj):
+                    contribs[hid].append((idx, ("dict", [(kk, s.heap[vv.id]) for kk, vv in obj.items])))
         # ---- build the states after the loop ------------------------------------------------
         out = []
         any_exit = None
@@ -394,6 +406,9 @@ class Loops:
         # accumulators
         for hid in mutated:
             old = st.heap[hid]
+            if isinstance(old, DictObj):
+                self.summarise_dict(ft, hid, old, contribs[hid], normal_paths, exit_paths, k, n, delta, created, rng)
+                continue
             self.summarise_accumulator(ft, hid, old, contribs[hid], normal_paths, exit_paths, k, n, delta, created, rng)
         # loop targets and body-local variables are undefined after the loop (poison)
         for nm in assigned:
@@ -436,6 +451,45 @@ class Loops:
         if isinstance(a, (bool, int, str, type(None))) and type(a) is type(b):
             return a == b
         return False
+
+    def summarise_dict(self, ft, hid, old, contribs, normal_paths, exit_paths, k, n, delta, created, rng):
+        """defaultdict(list|set) used as buckets with concrete keys: every bucket is an accumulator of its own.
+        (a bucket exists afterwards for every key some iteration *may* touch -- key presence is not tracked)"""
+        ex = self.ex
+        keys = [kk for kk, _v in old.items]
+        for _idx, (_kind, items) in contribs:
+            for kk, _inner in items:
+                if not any(ex.eq(ft, kk, k2) is True for k2 in keys):
+                    if any(not isinstance(ex.eq(ft, kk, k2), bool) for k2 in keys):
+                        raise Unsupported("defaultdict accumulator with symbolic keys (needs a LoopSpec)")
+                    keys.append(kk)
+        new_items = []
+        for kk in keys:
+            old_inner = None
+            for k2, v in old.items:
+                if ex.eq(ft, kk, k2) is True:
+                    old_inner = ft.heap[v.id]
+            if old_inner is None:
+                old_inner = ListObj(items=()) if old.default_factory == "list" else SetObj(items=())
+            sub = []
+            for idx, (_kind, items) in contribs:
+                for k2, inner in items:
+                    if ex.eq(ft, kk, k2) is True:
+                        if isinstance(inner, ListObj):
+                            sub.append((idx, ("items", list(inner.items)) if inner.items is not None else ("sym", inner.sv)))
+                        else:
+                            sub.append((idx, ("items", list(inner.items)) if inner.items is not None else ("symset", inner.sv)))
+            ref = ft.alloc(old_inner)
+            # paths that do not touch this bucket contribute nothing
+            touched = {idx for idx, _ in sub}
+            for idx in range(len(normal_paths)):
+                if idx not in touched:
+                    sub.append((idx, ("items", [])))
+            sub.sort(key=lambda t: t[0])
+            self.summarise_accumulator(ft, ref.id, old_inner, sub, normal_paths, exit_paths, k, n, delta, created, rng)
+            new_items.append((kk, ref))
+        ft.heap[hid] = DictObj(tuple(new_items), old.default_factory)
+        ex.notes.append("defaultdict accumulator: bucket presence after the loop is not tracked (all possibly touched keys exist)")
 
     def summarise_accumulator(self, ft, hid, old, contribs, normal_paths, exit_paths, k, n, delta, created, rng):
         ex, m = self.ex, self.m
